@@ -40,6 +40,18 @@ def isDictV : V → Bool
 def lookupKey (kvs : List (V × V)) (k : String) : Option V :=
   (kvs.find? (fun kv => kv.1 == V.str k)).map (·.2)
 
+/-- the key(s) a field is read from: its alias if it has one, else its name; with
+    allow_deserialization_not_by_alias the name is the fallback -/
+def findKey (cfg : Cfg) (f : FieldDef) (kvs : List (V × V)) : Option V :=
+  match f.alias with
+  | some a =>
+      if cfg.allowNotByAlias then
+        match lookupKey kvs a with
+        | some x => some x
+        | none => lookupKey kvs f.name
+      else lookupKey kvs a
+  | none => lookupKey kvs f.name
+
 /-- the instance built by `cls(...)`: every field in declaration order -/
 def buildInst (cls : String) (vals : List (String × V)) : V := .inst cls vals
 
@@ -182,7 +194,7 @@ def unionWalk (O : Oracle) (cx : Cx) (fx : Fx) : List Ty → V → Option V
 def unpackIdx (O : Oracle) (cx : Cx) (fx : Fx) : List Ty → V → Int → R (List V)
   | [], _, _ => .ok []
   | t :: ts, v, i => do
-      let x ← pyIndex v i
+      let x ← pyIndexO O v i
       let a ← unpack O cx fx t x
       let r ← unpackIdx O cx fx ts v (i + 1)
       pure (a :: r)
@@ -190,7 +202,7 @@ def unpackIdx (O : Oracle) (cx : Cx) (fx : Fx) : List Ty → V → Int → R (Li
 def unpackNT (O : Oracle) (cx : Cx) (fx : Fx) : List (String × Ty) → V → Int → Bool → R (List V)
   | [], _, _, _ => .ok []
   | (n, t) :: fs, v, i, asD => do
-      let x ← (if asD then pyGetItemStr v n else pyIndex v i)
+      let x ← (if asD then pyGetItemStr v n else pyIndexO O v i)
       let a ← unpack O cx fx t x
       let r ← unpackNT O cx fx fs v (i + 1) asD
       pure (a :: r)
@@ -199,7 +211,7 @@ def unpackNT (O : Oracle) (cx : Cx) (fx : Fx) : List (String × Ty) → V → In
 def unpackNTd (O : Oracle) (cx : Cx) (fx : Fx) : List (String × Ty) → V → Int → Bool → R (List V)
   | [], _, _, _ => .ok []
   | (n, t) :: fs, v, i, asD =>
-      match (do let x ← (if asD then pyGetItemStr v n else pyIndex v i); unpack O cx fx t x) with
+      match (do let x ← (if asD then pyGetItemStr v n else pyIndexO O v i); unpack O cx fx t x) with
       | .ok a => do
           let r ← unpackNTd O cx fx fs v (i + 1) asD
           pure (a :: r)
@@ -236,12 +248,7 @@ def unpackFields (O : Oracle) (cx : Cx) (cls : String) (cfg : Cfg) :
             pure ((f.name, dv) :: r)
         | none => raisePy .typeError
       else
-        let found : Option V :=
-          match f.alias with
-          | some a =>
-              if cfg.allowNotByAlias then (lookupKey kvs a).orElse (fun _ => lookupKey kvs f.name)
-              else lookupKey kvs a
-          | none => lookupKey kvs f.name
+        let found : Option V := findKey cfg f kvs
         match found with
         | none =>
             match f.default with
